@@ -543,7 +543,7 @@ def _run(chk, wd, proved):
 
     # ---- a result handler that raises something else than RejectEvent (second handler, body '!X')
     for cfgs in g_cfgs[:2]:
-        for body in (b'RESULT 2\n!X', b'RESULT 2\n', b'RESULT 2\n!XREADY\n'):
+        for body in (b'RESULT 2\n!X', b'RESULT 2\n', b'RESULT 2\n!XREADY\n', b'RESULT 2\n!S', b'RESULT 2\n!KREADY\n'):
             ops = ready_setup(cfgs) + [['emit', 'Tick5Event'], ['emit', 'ProcessStateRunningEvent'], ['transition', 0, []],
                                        ['transition', 1, []], ['feed', 0, 0, body], ['feed', 1, 0, body],
                                        ['feed', 0, 0, b'!X'], ['transition', 0, []], ['emit', 'Tick5Event'], ['transition', 1, []]]
